@@ -212,8 +212,13 @@ def check(run, db, tier):
     run.group(units_rules, run, db)
     run.group(freespace_obligations, run, db, 'C03.units')
     run.group(wavefront_rules, run, db)
+    from .c02 import ctor_role_rules
+    run.group(ctor_role_rules, run, db, 'C03.wrapper')
     from .c01 import fresh_rules
     run.group(fresh_rules, run, db, 'C03.grid')
+    from .c01 import iczt_rule
+    from .c02 import Proxy as _P
+    run.group(iczt_rule, _P(run, {'C01.conj': 'C03.kernel'}), db)
     # the coordinate grids a sampled field is located with: built from fftrange*dx over (row, col), unpacked in the order they are returned (shared with C04)
     from . import c04
     from .c02 import Sub
